@@ -24,9 +24,14 @@ G = {
     "grr": "%start S\n%%\nS: A 'a' | B 'a';\nA: 'b';\nB: 'b';\n",
     "grre": "%start S\n%expect-rr 1\n%%\nS: A 'a' | B 'a';\nA: 'b';\nB: 'b';\n",
     "grre2": "%start S\n%expect 1\n%%\nS: A 'a' | B 'a';\nA: 'b';\nB: 'b';\n",
+    "gboth": "%start S\n%%\nS: S 'a' S | 'b' | A 'a' | B 'a';\nA: 'b' 'b';\nB: 'b' 'b';\n",
+    "gbothe": "%start S\n%expect 1\n%%\nS: S 'a' S | 'b' | A 'a' | B 'a';\nA: 'b' 'b';\nB: 'b' 'b';\n",
+    "gbothrr": "%start S\n%expect-rr 1\n%%\nS: S 'a' S | 'b' | A 'a' | B 'a';\nA: 'b' 'b';\nB: 'b' 'b';\n",
+    "gbothok": "%start S\n%expect 1\n%expect-rr 1\n%%\nS: S 'a' S | 'b' | A 'a' | B 'a';\nA: 'b' 'b';\nB: 'b' 'b';\n",
 }
 GTOK = {"g1": ["a", "b"], "g2": ["b", "a"], "g3": ["a", "b"], "gwarn": ["c", "a", "b"], "gbad": [], "gconf": ["a", "b"],
-        "gconfe": ["a", "b"], "gexp": ["a", "b"], "gexprr": ["a", "b"], "grr": ["a", "b"], "grre": ["a", "b"], "grre2": ["a", "b"]}
+        "gconfe": ["a", "b"], "gexp": ["a", "b"], "gexprr": ["a", "b"], "grr": ["a", "b"], "grre": ["a", "b"], "grre2": ["a", "b"],
+        "gboth": ["a", "b"], "gbothe": ["a", "b"], "gbothrr": ["a", "b"], "gbothok": ["a", "b"]}
 L = {
     "l1": "%%\na 'a'\nb 'b'\n[ ]+ ;\n",
     "l2": "%%\nb 'b'\na 'a'\n[ \\t]+ ;\n",
@@ -36,7 +41,7 @@ L = {
 LNAMES = {"l1": ["a", "b"], "l2": ["a", "b"], "lbad": [], "lmiss": ["a"]}
 
 OPTS0 = dict(yacckind="original_generic", recoverer="cpctplus", sformat="variable", eoc=True, wae=False, showw=False,
-             vis="private", edition="2021", mod_name="none", lex_vis="private", lex_mod_name="none", case_insensitive=False,
+             vis="private", edition="2021", mod_name="unset", lex_vis="private", lex_mod_name="unset", case_insensitive=False,
              dot_matches_new_line=True)
 ALT = dict(yacckind="original_noaction", recoverer="none", sformat="fixed", eoc=False, wae=True, showw=True, vis="public",
            edition="2018", mod_name="pm", lex_vis="public", lex_mod_name="lm", case_insensitive=True, dot_matches_new_line=False)
@@ -111,7 +116,7 @@ def histories(seed, n):
         hs.append([("build", "both"), ("edit_l", v), ("build", "both"), ("edit_l", "l1"), ("build", "both"), ("build", "both")])
     hs.append([("build", "parser"), ("edit_g", "gbad"), ("edit_l", "lbad"), ("build", "both"), ("edit_l", "l1"), ("build", "both")])
     # the %expect matrix with error_on_conflicts on and off
-    for v in ("gconf", "gconfe", "gexp", "gexprr", "grr", "grre", "grre2"):
+    for v in ("gconf", "gconfe", "gexp", "gexprr", "grr", "grre", "grre2", "gboth", "gbothe", "gbothrr", "gbothok"):
         hs.append([("edit_g", v), ("build", "parser"), ("set", "eoc", False), ("build", "parser"), ("set", "eoc", True), ("build", "parser")])
     ops = [("edit_g", v) for v in G] + [("edit_l", v) for v in L] + [("build", "parser")] * 6 + [("build", "both")] * 6
     for i in range(n):
@@ -132,7 +137,7 @@ def ctstep(d, sub, which, opts):
     dd = os.path.join(d, sub) if sub else d
     req = dict(grammar_path=os.path.join(dd, "g.y"), grammar_out=os.path.join(dd, "g.y.rs"),
                lexer_path=os.path.join(dd, "l.l"), lexer_out=os.path.join(dd, "l.l.rs"), which=which,
-               opts={k: v for k, v in opts.items() if v != "none"})
+               opts={k: v for k, v in opts.items() if v != "unset"})
     rp = os.path.join(dd, "req.json")
     with open(rp, "w") as f:
         json.dump(req, f)
@@ -230,7 +235,7 @@ def run(res, prop, tier, replay=None):
     else:
         hs = histories(seed, 400 if thorough else 60)
         if prop == "C03":
-            hs = [h for h in hs if any(op[0] == "edit_g" and ("conf" in op[1] or "exp" in op[1] or "rr" in op[1]) for op in h)]
+            hs = [h for h in hs if any(op[0] == "edit_g" and ("conf" in op[1] or "exp" in op[1] or "rr" in op[1] or "both" in op[1]) for op in h)]
     with concurrent.futures.ThreadPoolExecutor(max_workers=max(2, core.NCPU - 4)) as ex:
         traces = list(ex.map(lambda a: run_history(res.wd, "h%d" % a[0], a[1], gi, li), enumerate(hs)))
     res.notes["histories"] = len(hs)
